@@ -260,6 +260,7 @@ class Engine:
             if st is not None and sv.ty.sort == Ref and isinstance(self.content_type(sv), ListT):
                 sq, v = self.seq_of(st, sv); i = self.fresh("si", I)
                 return SV(z3.Lambda([x], z3.Exists([i], z3.And(0 <= i, i < sq.len(v), sq.arr(v)[i] == x))), ty)
+        if ty is NODE and sv.ty is RNODE: return SV(T.RNode.nd_node(sv.v), NODE)    # meaningful for nd(...) members only
         if ty is RNODE and sv.ty is NODE: return SV(T.RNode.nd(sv.v), RNODE)
         if ty is RNODE and sv.ty.sort == Ref: return SV(T.RNode.rf(sv.v), RNODE)
         if sv.ty is NONE and isinstance(ty, TupT) and all(t.sort == Ref for t in ty.items):
@@ -582,7 +583,7 @@ class Engine:
             yield st, self.const(o.py[k]); return
         if t is NODE:
             if k == 0:
-                yield st, SV(z3.If(Node.is_item(o.v), Node.obj(o.v), Node.oobj(o.v)), RefT("CellsImpl")); return
+                yield st, SV(z3.If(Node.is_item(o.v), Node.obj(o.v), Node.oobj(o.v)), RefT("NodeObj")); return
             if k == 1:
                 ok = Node.is_item(o.v)
                 yield from self.fork_exc(st, ok, lambda s: SV(Node.key(o.v), KEY), "IndexError", n); return
@@ -736,7 +737,7 @@ class Engine:
             yield st, None; return
         if isinstance(tgt, (ast.Tuple, ast.List)):
             if v.ty is NODE and len(tgt.elts) == 2:
-                parts = [SV(Node.obj(v.v), RefT("CellsImpl")), SV(Node.key(v.v), KEY)]
+                parts = [SV(Node.obj(v.v), RefT("NodeObj")), SV(Node.key(v.v), KEY)]
                 st.pc.append(Node.is_item(v.v)) if False else None
             elif isinstance(v.ty, TupT) and len(v.ty.items) == len(tgt.elts):
                 parts = [SV(v.ty.get(v.v, i), t) for i, t in enumerate(v.ty.items)]
